@@ -270,6 +270,89 @@ def run(ctx):
             return ":line-ends-only"
         return ""
 
+    def bam_program(case):
+        """BAM source (independent spec-level encoder R2): selections, repetitions and concatenations written back must decode to exactly
+        the selected records' bytes in the selected order (fields cannot be replaced in BAM tables)."""
+        from bnpmon.models import bam as R2
+        from bnpmon.workloads.C16 import gen_record
+        r = random.Random(case["seed"])
+        n_refs = r.choice([1, 2, 3])
+        refs = [("chr%d" % (i + 1), 10 ** 6) for i in range(n_refs)]
+        n = r.randint(1, ctx.pick(8, 30))
+        recs = [gen_record(r, n_refs) for _ in range(n)]
+        payload_len = sum(len(R2.encode_record(x)) for x in recs)
+        data, _ = R2.encode_bam(refs, recs, sorted(r.randint(1, max(1, payload_len)) for _ in range(r.choice([0, 2]))))
+        path = ctx.path("c04.bam")
+        with open(path, "wb") as f:
+            f.write(data)
+        parts = []
+        if case["chunked"] and n >= 2:
+            k = max(len(R2.encode_record(x)) for x in recs) + r.randint(0, 60)
+            chunks = list(bnp.open(path).read_chunks(min_chunk_size=k))
+            sizes = [len(c) for c in chunks]
+            if sum(sizes) != n:
+                ctx.observe("chunked-read-count-differs(C16's business)")
+                return
+            bounds = np.cumsum([0] + sizes).tolist()
+            parts = [(c, list(range(a, b))) for c, a, b in zip(chunks, bounds[:-1], bounds[1:])]
+        else:
+            parts = [(bnp.open(path).read(), list(range(n)))]
+        t, state = parts[r.randrange(len(parts))]
+        program = []
+        for _ in range(r.randint(1, maxsteps)):
+            if r.random() < 0.65 or not state:
+                sel = gen_selection(r, len(state))
+                t, state = apply_sel_real(t, sel), apply_sel_model([(i, {}) for i in state], sel)
+                state = [i for i, _ in state]
+                program.append(list(sel))
+            else:
+                ot, oidx = parts[r.randrange(len(parts))]
+                sel = gen_selection(r, len(oidx))
+                other, ostate = apply_sel_real(ot, sel), [i for i, _ in apply_sel_model([(i, {}) for i in oidx], sel)]
+                if r.random() < 0.5:
+                    t, state = np.concatenate([t, other]), state + ostate
+                    program.append(["concat-right", list(sel)])
+                else:
+                    t, state = np.concatenate([other, t]), ostate + state
+                    program.append(["concat-left", list(sel)])
+            if r.random() < 0.2 and len(state):
+                try:
+                    getattr(t, r.choice(["name", "flag", "cigar_op", "sequence", "quality"]))     # a field parsed before the write
+                    program.append(["access"])
+                except Exception as e:
+                    if not originates_in_library(e):
+                        raise
+                    ctx.observe("bam-field-access-raised(C16's business):%s" % type(e).__name__)
+                    return
+        wit = {"format": "bam", "seed": case["seed"], "n": n, "chunked": case["chunked"], "program": program, "expected_names": [recs[i]["name"][:12] for i in state][:10]}
+        nontriv = (data, repr(program)) if len(state) >= 2 else None
+        concatenated = any(isinstance(p[0], str) and p[0].startswith("concat") for p in program)
+        out = ctx.path("c04o.bam")
+        try:
+            with bnp.open(out, "w") as f:
+                f.write(t)
+            written = open(out, "rb").read()
+        except Exception as e:
+            if not originates_in_library(e):
+                raise
+            et, site = exc_site(e)
+            ctx.judged("write:bam", nontriv)
+            ctx.violation("bam%s/write-raised:%s@%s" % ("+concat" if concatenated else "", et, site), "writing a selection of BAM records raised %s: %s" % (et, str(e)[:100]), wit)
+            return
+        try:
+            refs2, recs2 = R2.decode_bam(written)
+            got = [x["raw"] for x in recs2]
+        except Exception as e:
+            ctx.check("write:bam", False, "bam%s/output-is-not-a-bam" % ("+concat" if concatenated else ""), "the written file is not decodable as BAM: %s" % str(e)[:80], wit, nontriv)
+            return
+        exp = [R2.encode_record(recs[i]) for i in state]
+        ctx.check("write:bam", got == exp and (refs2 == refs or not state), "bam%s/bytes-differ-from-selected-source-records" % ("+concat" if concatenated else ""),
+                  "BAM written from the program decodes to %d records (%d expected) / other bytes" % (len(got), len(exp)), dict(wit, got_names=[x["name"][:12] for x in recs2][:10]), nontriv)
+
+    for i in range(ctx.share(ctx.pick(640, 8000))):
+        ctx.run_case(bam_program, {"seed": rng.randrange(2 ** 40), "chunked": rng.random() < 0.4})
+    ctx.floor("judged:write:bam", ctx.pick(100, 2000))
+
     fmts = list(SOURCES)
     total = ctx.share(ctx.pick(400 * len(fmts), 6000 * len(fmts)))
     for i in range(total):
